@@ -132,6 +132,10 @@ def rule_for(g, h, used):
         c = g.complement_rule(h, used)
         if c:
             return c
+    if r < 0.50:
+        # a whole (id-less or named) configurator handed in as a rule: it must be nested like any other rule
+        inner = [g.compound(1, used, kinds=["All", "Any", "ccAny", "ccXor"], leaves=leaves) for _ in range(rng.randint(1, 2))]
+        return ["Stingy", inner, None if rng.random() < 0.7 else g.idspec(used)]
     if r < 0.55:
         return g.compound(1, used, kinds=["ccAny", "ccXor"], leaves=leaves)
     if r < 0.72:
